@@ -770,4 +770,41 @@ theorem writeString_uses_current_pool (acts : List WAct) (st0 : WState) (p : Lis
   rw [hst, runWriter_cons_ok _ [] _ _ _ hstep]
   simp [runWriter]
 
+
+/-! ## the hypotheses are satisfiable; the seeded scenarios, evaluated -/
+
+/-- two peeks on a buffered ZERO byte, then the read, then the end: count 0, count 5, then a trailing zero byte -/
+example : (runReader [.peek, .peek, .read .count, .peek, .peek, .read .count, .peek, .peek, .read .byte, .peek, .peek]
+      ⟨[0, 5, 0], none, none⟩).1 =
+    [.peeked true, .peeked true, .value (.count 0), .peeked true, .peeked true, .value (.count 5),
+     .peeked true, .peeked true, .value (.byte 0), .peeked false, .peeked false] := by decide
+
+/-- one writer, two documents, the caller clears the shared pool in between: the second document starts again at
+    index 0 (`LMT` = 76 77 84, `GMT` = 71 77 84) -/
+example : runWriter [.write (.str [76, 77, 84]), .write (.str [71, 77, 84]), .pool .clear, .write (.str [71, 77, 84]),
+      .write (.str [76, 77, 84]), .write (.str [71, 77, 84])] ⟨[], some []⟩ =
+    ([.wrote [0], .wrote [1], .poolOp, .wrote [0], .wrote [1], .wrote [0]], ⟨[0, 1, 0, 1, 0], some [[71, 77, 84], [76, 77, 84]]⟩) := by
+  decide
+
+/-- a script with two documents, a cleared pool in between, zero-valued items and peeks satisfies `ScriptDom` -/
+example : ScriptDom false (some []) [.value 2 (.count 0), .value 1 (.str [76, 77, 84]), .value 3 (.str []), .endDoc,
+    .pool .clear, .value 2 (.str []), .pool (.append [90]), .value 0 (.trans none Instant.beforeMin), .value 2 (.str [76, 77, 84])] := by
+  have hc0 : ValDom (some []) (.count 0) := by show (0 : Int) ≤ 0 ∧ (0 : Int) ≤ INT_MAX; decide
+  refine ⟨hc0, fun bs q' h => ?_⟩
+  cases h
+  refine ⟨⟨trivial, by simp [PoolBudget, INT_MAX]⟩, fun bs q' h => ?_⟩
+  have e : writeVal (some []) (.str [76, 77, 84]) = .ok ([0], some [[76, 77, 84]]) := by decide
+  rw [e] at h; cases h
+  refine ⟨⟨trivial, by simp [PoolBudget, INT_MAX]⟩, fun bs q' h => ?_⟩
+  have e : writeVal (some [[76, 77, 84]]) (.str []) = .ok ([1], some [[76, 77, 84], []]) := by decide
+  rw [e] at h; cases h
+  show ScriptDom false (some [[76, 77, 84], []]) _
+  refine ⟨(fun h => by cases h), ⟨trivial, by simp [PoolBudget, PoolAct.apply, INT_MAX]⟩, fun bs q' h => ?_⟩
+  have e : writeVal (PoolAct.clear.apply (some [[76, 77, 84], []])) (.str []) = .ok ([0], some [[]]) := by decide
+  rw [e] at h; cases h
+  refine ⟨fun _ => ⟨_, rfl⟩, ⟨Or.inl rfl, trivial⟩, fun bs q' h => ?_⟩
+  have e : writeVal ((PoolAct.append [90]).apply (some [[]])) (.trans none Instant.beforeMin) = .ok ([0], some [[], [90]]) := by decide
+  rw [e] at h; cases h
+  exact ⟨⟨trivial, by simp [PoolBudget, INT_MAX]⟩, fun _ _ _ => trivial⟩
+
 end Pyoda.C14
